@@ -135,6 +135,25 @@ def run(ctx):
                 if exp == "TypeError" and val is None:
                     ok = got_ in ("TypeError", "ValueError")
                 R.oracle(f"nonint {where} {name} {val!r}", ok, dict(input=f"{name}={val!r} ({where}) then make_image", expected=str(exp), observed=str(got_)), tag="P3:non-integer")
+    # non-integers that COMPARE EQUAL to an in-range integer (3.0 == 3, Fraction(3) == 3, Decimal(5) == 5, 2+0j == 2): the
+    # statement says a mask pattern of non-integer type is a TypeError whatever its value; an acceptance test written as a
+    # membership / equality test instead of a type test lets exactly these through
+    import decimal, fractions
+    for val in (0.0, 3.0, 7.0, fractions.Fraction(3), fractions.Fraction(0), decimal.Decimal(5), complex(2, 0), 8.0, -1.0,
+                fractions.Fraction(7, 2), decimal.Decimal("2.5")):
+        for where in ("ctor", "assign", "assign-compiled"):
+            def f():
+                if where == "ctor":
+                    q = qrcode.QRCode(mask_pattern=val)
+                else:
+                    q = qrcode.QRCode()
+                    if where == "assign-compiled":
+                        q.add_data("y"); q.make()
+                    q.mask_pattern = val
+                q.add_data("x"); q.make_image(image_factory=PyPNGImage)
+            got_ = attempt(f)
+            R.oracle(f"nonint-equal {where} mask_pattern {val!r}", got_ == "TypeError",
+                     dict(input=f"mask_pattern={val!r} ({where}) then make_image", expected="TypeError", observed=str(got_)), tag="P3:non-integer")
     # fractional values: whatever conversion the library applies, a setting it ACCEPTS must be held in range and the image must
     # carry a non-negative quiet zone and a positive box (the state held when something is produced decides, not the argument)
     for val in (-0.999, -0.75, -0.5, -0.25, 0.25, 0.5, 0.75, 1.5, 2.5, 3.999):
